@@ -41,6 +41,25 @@ theorem issued_window (s : State) (op : Op) (hok : (step s op).2 = .ok) :
 theorem issued_never_reused (s : State) (ops : List Op) : (issuedAll s ops).Nodup :=
   Doc.issued_never_reused ops s
 
+/-- (round 3) the generator stays above ALL handles ever issued, across save+reload: every handle issued by an accepted
+    step of a history (entities, sub-entities, block records, groups; deleted ones included) is below the generator of the
+    final state.  A reload step carries the `$HANDSEED` the loader read from the file and is accepted by the model only
+    if that value is not below the generator (`reload_seed_ge`), so a file whose `$HANDSEED` forgets deleted maxima shows
+    up as a disagreement of the correspondence -/
+theorem issued_below_generator (s : State) (ops : List Op) : ∀ h ∈ issuedAll s ops, h < (run s ops).next :=
+  Doc.issuedAll_lt_next ops s
+
+theorem reload_seed_ge (s : State) (seed : Nat) (hok : (step s (.reload seed)).2 = .ok) :
+    s.next ≤ seed ∧ (step s (.reload seed)).1.next = seed := Doc.reload_seed_ge s seed hok
+
+/-- (round 3) a request addressed to the WRONG layout - `unlink_entity`, `move_to_layout`, `delete_entity` sent to a layout or
+    block that does not list the live entity - is rejected (ValueError, DXFValueError, ValueError) and leaves the document
+    unchanged, from EVERY state -/
+theorem wrong_layout_rejected (s : State) (k e k2 : Nat) (ha : isAlive s e = true)
+    (hn : ((spaceOf s k).getD []).contains e = false) :
+    step s (.unlink k e) = (s, .err .valueError) ∧ step s (.move k e k2) = (s, .err .dxfValueError) ∧
+    step s (.del k e) = (s, .err .valueError) := Doc.wrong_layout_rejected s k e k2 ha hn
+
 /-- one step preserves the structural invariant (unique block-record keys below the generator; every
     handle at most once over ALL entity spaces; spaces hold only created entities), for
     `layout.add_entity` under its documented caller obligation `OpOk` -/
@@ -238,6 +257,10 @@ example : LinkInv fresh := by
 example : TabInv fresh := by
   simp [TabInv, fresh, ofString]
 
+#guard isAlive (run fresh [.add 23 47 48]) 47 && !(((spaceOf (run fresh [.add 23 47 48]) 27).getD []).contains 47)
+#guard (step (run fresh [.add 23 47 48]) (.move 27 47 23)).2 == .err .dxfValueError
+#guard (step (run fresh [.add 23 47 48, .reload 60]) (.reload 59)).2 == .err .notFresh
+#guard (step (run fresh [.add 23 47 48, .reload 60]) (.reload 60)).2 == .ok
 #guard hasGroup (run fresh [.newGroup (ofString "g1") 47 48]) (ofString "G1")
 #guard !hasGroup (run fresh [.newGroup (ofString "g1") 47 48, .delGroup (ofString "G1")]) (ofString "g1")
 #guard freshOk fresh [47] 48
